@@ -80,12 +80,18 @@ pub fn format_call(
     shape: Shape,
     call_next_node: FunctionCallNextNode,
 ) -> Call {
-    let function_call_trivia = vec![create_function_call_trivia(ctx)];
     match call {
         Call::AnonymousCall(function_args) => {
             let formatted_function_args =
-                format_function_args(ctx, function_args, shape, call_next_node)
-                    .update_leading_trivia(FormatTriviaType::Append(function_call_trivia));
+                format_function_args(ctx, function_args, shape, call_next_node);
+            let function_call_trivia = vec![trivia_util::separator_or_indent(
+                ctx,
+                &formatted_function_args.leading_trivia(),
+                shape,
+                create_function_call_trivia(ctx),
+            )];
+            let formatted_function_args = formatted_function_args
+                .update_leading_trivia(FormatTriviaType::Append(function_call_trivia));
             Call::AnonymousCall(formatted_function_args)
         }
         Call::MethodCall(method_call) => {
@@ -525,10 +531,15 @@ pub fn format_function_args(
                 || (ctx.should_omit_string_parens()
                     && !matches!(call_next_node, FunctionCallNextNode::ObscureWithoutParens))
             {
-                let token_reference = format_token_reference(ctx, token_reference, shape)
-                    .update_leading_trivia(FormatTriviaType::Append(vec![Token::new(
-                        TokenType::spaces(1),
-                    )])); // Single space before the token reference
+                let token_reference = format_token_reference(ctx, token_reference, shape);
+                let separator = trivia_util::separator_or_indent(
+                    ctx,
+                    &GetLeadingTrivia::leading_trivia(&token_reference),
+                    shape,
+                    Token::new(TokenType::spaces(1)), // Single space before the token reference
+                );
+                let token_reference = token_reference
+                    .update_leading_trivia(FormatTriviaType::Append(vec![separator]));
 
                 return FunctionArgs::String(token_reference);
             }
@@ -564,10 +575,15 @@ pub fn format_function_args(
                 || (ctx.should_omit_table_parens()
                     && !matches!(call_next_node, FunctionCallNextNode::ObscureWithoutParens))
             {
-                let table_constructor = format_table_constructor(ctx, table_constructor, shape)
-                    .update_leading_trivia(FormatTriviaType::Append(vec![Token::new(
-                        TokenType::spaces(1),
-                    )])); // Single space before the table constructor
+                let table_constructor = format_table_constructor(ctx, table_constructor, shape);
+                let separator = trivia_util::separator_or_indent(
+                    ctx,
+                    &GetLeadingTrivia::leading_trivia(table_constructor.braces().tokens().0),
+                    shape,
+                    Token::new(TokenType::spaces(1)), // Single space before the table constructor
+                );
+                let table_constructor = table_constructor
+                    .update_leading_trivia(FormatTriviaType::Append(vec![separator]));
 
                 return FunctionArgs::TableConstructor(table_constructor);
             }
@@ -1267,6 +1283,12 @@ pub fn format_method_call(
     shape: Shape,
     call_next_node: FunctionCallNextNode,
 ) -> MethodCall {
+    let (colon_token, name) =
+        process_dot_name(ctx, method_call.colon_token(), method_call.name(), shape);
+    let args_shape = shape + (colon_token.to_string().len() + name.to_string().len());
+    let formatted_function_args =
+        format_function_args(ctx, method_call.args(), args_shape, call_next_node);
+
     // If a single line comment follows the method name, the arguments can not stay on the same line
     let function_call_trivia = if method_call
         .name()
@@ -1277,15 +1299,15 @@ pub fn format_method_call(
             create_indent_trivia(ctx, shape.increment_additional_indent()),
         ]
     } else {
-        vec![create_function_call_trivia(ctx)]
+        vec![trivia_util::separator_or_indent(
+            ctx,
+            &formatted_function_args.leading_trivia(),
+            shape,
+            create_function_call_trivia(ctx),
+        )]
     };
-
-    let (colon_token, name) =
-        process_dot_name(ctx, method_call.colon_token(), method_call.name(), shape);
-    let shape = shape + (colon_token.to_string().len() + name.to_string().len());
-    let formatted_function_args =
-        format_function_args(ctx, method_call.args(), shape, call_next_node)
-            .update_leading_trivia(FormatTriviaType::Append(function_call_trivia));
+    let formatted_function_args = formatted_function_args
+        .update_leading_trivia(FormatTriviaType::Append(function_call_trivia));
 
     MethodCall::new(name, formatted_function_args).with_colon_token(colon_token)
 }
